@@ -147,9 +147,20 @@ CHECKS = {
             "HOME is always set (main.rs creates ~/.ucg there). A function parameter named env is refused since the reserved-word fix; "
             "the property speaks of let, fields and selectors only.",
             "DESIGN.md section 4 C18"),
+    "C08": ("exploration",
+            "bounded-exhaustive enumeration of strings and field-kind orders through the real env/flags/exec converters, evaluated by dash and bash",
+            "Every string of length <= 4 (thorough 5: 66 430 strings) over {' \" \\ $ ` blank LF * a} plus 37 further strings (Unicode, "
+            "metacharacters, option-like words, CR, control characters, 1000 characters) in 7 placements: env value, flag value, list-flag "
+            "item, exec command, exec argument, exec flag-tuple argument, exec env value; every tuple of 1..4 (5) fields with kinds from "
+            "{str, int, float, bool, NULL, list, tuple} in every order for env and flags. The converter output (byte-exact, in-process) is "
+            "sourced / eval'd / run with exec replaced by an argv dumper in a subshell of each shell; every scalar must arrive as exactly "
+            "one byte-identical word, once, in order; skipped fields must stay undefined; $a is set to a canary.",
+            "Shells other than dash and bash are not covered. Under dash the `set -euo pipefail` line of the exec script is reduced to "
+            "`set -eu` (dash has no pipefail); the quoting of assignments and command line is what is under test.",
+            "DESIGN.md section 4 C08"),
 }
 
-CLAIMED = ["C01", "C02", "C03", "C04", "C05", "C07", "C10", "C11", "C12", "C13", "C14", "C16", "C18"]
+CLAIMED = ["C01", "C02", "C03", "C04", "C05", "C07", "C08", "C10", "C11", "C12", "C13", "C14", "C16", "C18"]
 
 NOT_YET = "check not built yet in this round; design in DESIGN.md section 4 (bounded-exhaustive enumeration applies)"
 
